@@ -5,7 +5,7 @@
   accepted" per call (`spec_of_ok`), then `call_spec_impl` gives the equality of the results.
   Navigation: a navigation that finds nothing is a `panic`, so an `ok` run has resolved every step.
 -/
-import XotModel.Lemmas.Fprog3Main
+import XotModel.Lemmas.Fprog3Clear
 import XotModel.Lemmas.Fprog2Conv
 
 namespace XotModel
@@ -38,11 +38,10 @@ theorem spec_of_ok {f : Forest} (inv : f.Inv) (hfl : FlagsOk f) (c : Call) (hs :
         simp only [Call.impl] at h
         unfold Forest.mapClear at h
         simp [hh] at h
-    simp only [Call.inScope, isElementAt_eq, he, Bool.not_true, Bool.false_or] at hs
     simp only [Call.spec, isElementAt_eq, he, if_true]
-    cases hr : specRemoveAll (entryHandles f k e) f with
-    | none => rw [hr] at hs; cases hs
-    | some g => exact ⟨g, none, rfl⟩
+    obtain ⟨g, hg⟩ := clear_accepted inv hfl k he
+    rw [hg]
+    exact ⟨g, none, rfl⟩
   | nsSetNamespace n ns =>
     simp only [Call.impl] at h
     unfold Forest.namespaceSetNamespace at h
